@@ -77,7 +77,8 @@ def scenario(eng, case, front):
     dmenu = case.get('dnames') or list(range(len(DATA_NAMES)))
     ints = []
     for i in range(nI):
-        ints.append({'name': imenu[i][eng.choice(len(imenu[i]), 'iname')], 'cbp': eng.bool('cbp'),
+        ints.append({'name': imenu[i][eng.choice(len(imenu[i]), 'iname')],
+                     'cbp': eng.bool('cbp') if case.get('cbp') is None else case['cbp'],
                      'life': eng.int('life', 1, 10000)})
     evs = []
     for k in range(nE):
@@ -393,6 +394,12 @@ def cases(tier, seed):
             # two events: timing-focused families (kinds restricted; the legacy front-end gets the smaller menu in quick)
             add(front, 2, 2, 'xxee', [[1], [1, 0]], [1], [['data'], ['data']], 60)
             add(front, 2, 2, 'xexe', [[1], [1]], [1], [['nack', 'cancel'] if front == 'v2' else ['nack'], ['data', 'nack']], 60)
+            if front == 'v2':
+                # Data for the first Interest, a second Interest for the same name while the first one's validator
+                # is still running (its deadline may pass meanwhile), then Data again
+                case = {'I': 2, 'E': 2, 'order': 'xexe', 'verdicts': [3, 0], 'inames': [[1], [1]], 'dnames': [1],
+                        'kinds': [['data'], ['data']], 'cbp': False}
+                cs.append((front, case, {'weight': 60, 'split_depth': 6}))
         else:
             for order in _orders(2, 1):
                 add(front, 2, 1, order, [[1, 0], [1, 3]], [1, 3], None, 100)
